@@ -285,33 +285,34 @@ Definition load_tile_coords (m : mgr) (ev : env) (sc : nat -> outcome) (members 
 (* ---- a request that has to wait for the tile lock --------------------------------------------------------
    Double-checked locking: _load_tile_coords decides on the state c0 it sees first; before the request gets its
    first tile lock other requests complete (state s1); under the lock _create_single_tile / _create_meta_tile check
-   again.  What the re-check of the single tile path sees depends on the Tile object it works on:
-     file caches    load_tile_metadata does a fresh lstat, and the loaded source is the file *name* (read lazily):
-                    time stamp and content of the current cache;
-     mbtiles/sqlite load_tile_metadata -> load_tile returns at once for a tile whose source was loaded before the
-                    wait: time stamp and content loaded from c0 (finding C13-sqlite-recheck).
-   The meta tile path re-checks fresh Tile objects: always the current cache. *)
-Definition recheck_uses_loaded (m : mgr) : bool := m_floor_store m.
+   again.  The re-check reads the time stamp that is stored *now* for every back-end (file: lstat; mbtiles/sqlite:
+   SELECT last_modified, since fix F60).  What differs is the image the Tile object of the waiting request carries:
+     file caches    the loaded source is the file *name* (read lazily): the content of the current cache;
+     mbtiles/sqlite the loaded source is a BytesIO of what was loaded before the wait (or, for a tile that did not
+                    exist then, what cache.is_cached(tile) of the re-check loads).
+   The meta tile path re-checks fresh Tile objects. *)
+Definition keeps_loaded_image (m : mgr) : bool := m_floor_store m.
 
 Definition view (m : mgr) (c0 c : cache) (a : addr) : cache :=
-  if recheck_uses_loaded m then match get c0 a with Some e => put c a e | None => c end else c.
+  if keeps_loaded_image m then match get c0 a with Some e => put c a e | None => c end else c.
 
-(* _create_single_tile on a Tile object that was loaded from c0 *)
+(* _create_single_tile on a Tile object that was loaded from c0: decisions on the current cache, image from the
+   Tile object *)
 Definition create_single_v (m : mgr) (ev : env) (sc : nat -> outcome) (c0 : cache) (s : st) (a : addr) : step :=
   let cv := view m c0 (s_cache s) a in
-  match tm_is_cached m ev cv a with
+  match tm_is_cached m ev (s_cache s) a with
   | None => Stop s ECfg
   | Some true => Cont s [(a, content_of cv a)]
   | Some false =>
       let s1 := mkSt (s_cache s) ([a] :: s_log s) in
       match next_outcome sc s with
       | UErr =>
-          match tm_is_stale m ev cv a with
+          match tm_is_stale m ev (s_cache s) a with
           | None => Stop s1 ECfg
           | Some true => Cont s1 [(a, content_of cv a)]             (* load_tile fills the tile object *)
           | Some false => Stop s1 ESource
           end
-      | UBlank => Cont s1 (if recheck_uses_loaded m then [(a, content_of cv a)] else [])
+      | UBlank => Cont s1 (if keeps_loaded_image m then [(a, content_of cv a)] else [])
                   (* mbtiles: cache.is_cached(tile) of the re-check has loaded the image if there is one *)
       | UBroken => Stop s1 EBody
       | UOk cacheable auth v0 =>
@@ -319,7 +320,7 @@ Definition create_single_v (m : mgr) (ev : env) (sc : nat -> outcome) (c0 : cach
           let fresh := Cont (mkSt (if cacheable then store_tile m ev (s_cache s) a v else s_cache s) (s_log s1))
                             [(a, Some v)] in
           if auth then
-            match tm_is_stale m ev cv a with
+            match tm_is_stale m ev (s_cache s) a with
             | None => Stop s1 ECfg
             | Some true => Cont s1 [(a, content_of cv a)]
             | Some false => fresh
@@ -333,7 +334,7 @@ Definition create_single_v (m : mgr) (ev : env) (sc : nat -> outcome) (c0 : cach
 Definition serve_after (m : mgr) (c0 c_end : cache) (created : list (addr * option Z)) (a : addr) : option Z :=
   match assoc created a with
   | Some v => v
-  | None => if recheck_uses_loaded m then content_of c0 a
+  | None => if keeps_loaded_image m then content_of c0 a
             else match get c0 a with Some _ => content_of c_end a | None => None end
   end.
 
